@@ -2514,3 +2514,125 @@ func c15OptionalModuleLoaded(c *Ctx, r *Report, rule string) {
 		r.bad(rule, "modules", "LoadModule of a single module", "-", "no such call found")
 	}
 }
+
+// c15NumbersDecimal: a number written in a Caddyfile denotes what the same digits denote in JSON - a decimal
+// number. A parser that reads it with base 0 (Go literal syntax) takes a zero-padded decimal for octal: the adapted
+// JSON states another value than the Caddyfile.
+func c15NumbersDecimal(c *Ctx, r *Report, rule string) {
+	r.rule(rule, "Caddyfile parsers: every number is read as a decimal number (strconv.ParseInt/ParseUint and big.Int.SetString with base 10) - what the adapted JSON states is the number the Caddyfile states", 10)
+	n := 0
+	for _, fn := range c.Funcs {
+		if fn.Pkg == nil || len(fn.Blocks) == 0 {
+			continue
+		}
+		inParser := false
+		for f := fn; f != nil; f = f.Parent() {
+			if strings.HasPrefix(f.Name(), "UnmarshalCaddyfile") || strings.HasPrefix(f.Name(), "unmarshalCaddyfile") {
+				inParser = true
+			}
+		}
+		if !inParser {
+			continue
+		}
+		for _, ci := range callsIn(fn) {
+			id := calleeID(ci)
+			baseArg := -1
+			switch id {
+			case "strconv.ParseInt", "strconv.ParseUint":
+				baseArg = 1
+			case "(*math/big.Int).SetString":
+				baseArg = 2
+			}
+			if baseArg < 0 || baseArg >= len(ci.Common().Args) {
+				continue
+			}
+			n++
+			b, isK := constInt(ci.Common().Args[baseArg])
+			r.check(isK && b == 10, rule, fname(fn), fmt.Sprintf("%s#%d base", id, n), c.ipos(ci), "base 10", fmt.Sprintf("the number is read with base %d (constant: %v), not as a decimal number: with base 0 a zero-padded value such as 0100 is taken for octal (64) and 08 is refused - the adapted JSON states another number than the Caddyfile", b, isK))
+		}
+	}
+	if n == 0 {
+		r.bad(rule, "Caddyfile parsers", "numbers", "-", "no number parsed in a Caddyfile parser found")
+	}
+}
+
+// c14SingleAddressPrefix: a range given as a single address stands for that address alone - a prefix of all its bits
+// (32 for IPv4, 128 for IPv6). Where the module builds such a prefix itself, the length is the address's own BitLen().
+func c14SingleAddressPrefix(c *Ctx, r *Report, rule string) {
+	r.rule(rule, "IP ranges: wherever the module turns an address into a prefix itself (netip.PrefixFrom), the prefix length is that address's BitLen() - a single IPv6 address is a /128, not a /32 (ranges parsed by caddyhttp.CIDRExpressionToPrefix or netip.ParsePrefix are the library's)", 0)
+	n := 0
+	for _, fn := range c.Funcs {
+		if fn.Pkg == nil || len(fn.Blocks) == 0 || !strings.HasPrefix(fn.Pkg.Pkg.Path(), modPath) {
+			continue
+		}
+		for _, ci := range callsIn(fn) {
+			if calleeID(ci) != "net/netip.PrefixFrom" || len(ci.Common().Args) != 2 {
+				continue
+			}
+			n++
+			ok := false
+			for _, o := range origins(ci.Common().Args[1], sliceOpts{}) {
+				if o.Kind == "call" && strings.HasSuffix(o.Desc, "netip.Addr).BitLen") {
+					ok = true
+				}
+			}
+			r.check(ok, rule, fname(fn), fmt.Sprintf("netip.PrefixFrom#%d", n), c.ipos(ci), "length = BitLen() of the address", "the prefix built from a single address does not take its length from the address's BitLen(): a bare IPv6 address becomes a /32 (or an IPv4 one something else than /32) and the range matches peers it does not name")
+		}
+	}
+	r.ok(rule, "module", "prefixes built by the module", "-", fmt.Sprintf("%d netip.PrefixFrom call(s)", n))
+}
+
+// c17ProxyReadsThroughWrappers: the proxy pumps the client's bytes through the connection it was given - whatever
+// handlers before it wrapped around the socket (the throttle's limiter, a TLS terminator, the PROXY header reader)
+// sees every byte. The unwrapped connection below is there for half-closing only.
+func c17ProxyReadsThroughWrappers(c *Ctx, r *Report, rule string) {
+	r.rule(rule, "proxy pump: no copy or read in Handler.proxy takes its bytes from the connection below the wrappers (Connection.Conn, what halfCloser/NetConn() unwrap): the client is read through the connection handed to the handler", 1)
+	fn := c.Fn("modules/l4proxy.(*Handler).proxy")
+	if fn == nil {
+		r.bad(rule, "modules/l4proxy.(*Handler).proxy", "exists", "-", "function not found")
+		return
+	}
+	n := 0
+	var scan func(g *ssa.Function)
+	scan = func(g *ssa.Function) {
+		for _, a := range g.AnonFuncs {
+			scan(a)
+		}
+		for _, ci := range callsIn(g) {
+			id := calleeID(ci)
+			src := -1
+			switch {
+			case id == "io.Copy" || id == "io.CopyBuffer" || id == "io.CopyN":
+				src = 1
+			case id == "io.ReadFull" || id == "io.ReadAll" || id == "io.ReadAtLeast":
+				src = 0
+			case isInvoke(ci, "Read") || isInvoke(ci, "WriteTo"):
+				src = -2
+			}
+			var v ssa.Value
+			if src >= 0 && src < len(ci.Common().Args) {
+				v = ci.Common().Args[src]
+			} else if src == -2 {
+				v = ci.Common().Value
+			}
+			if v == nil {
+				continue
+			}
+			n++
+			var below []string
+			for _, o := range origins(v, sliceOpts{throughCalls: true}) {
+				if o.Kind == "field" && strings.HasSuffix(o.Desc, "layer4.Connection.Conn") {
+					below = append(below, "Connection.Conn")
+				}
+				if o.Kind == "call" && (strings.HasSuffix(o.Desc, ".NetConn") || strings.HasSuffix(o.Desc, "l4proxy.halfCloser")) {
+					below = append(below, shortCallee(o.Desc))
+				}
+			}
+			r.check(len(below) == 0, rule, fname(fn), fmt.Sprintf("%s#%d source", id, n), c.ipos(ci), "reads through the connection it was given", "the pump reads from the connection below the wrappers ("+strings.Join(dedup(below), ", ")+"): bytes taken there pass no limiter of a throttle handler in front of the proxy (and no TLS terminator, no PROXY header reader) - the read rate is unbounded")
+		}
+	}
+	scan(fn)
+	if n == 0 {
+		r.bad(rule, fname(fn), "copies", c.pos(fn.Pos()), "undecided: no copy or read found in the pump")
+	}
+}
